@@ -28,17 +28,26 @@ Fixpoint jv_eqb (a b : jv) {struct a} : bool :=
 
 Definition jmap_eqb (a b : jmap) : bool := jv_eqb (JMap a) (JMap b).
 
-(* case = (kind, sep, input record, observed output record)
+(* case = (kind, sep, -f field names, input record, crashed, observed output record)
    kind 0: mlr --ijson --ojson --flatsep SEP flatten
    kind 1: mlr --ijson --ojson --flatsep SEP unflatten
    kind 2: mlr --ijson --ojson --flatsep SEP flatten then unflatten
    kind 3: JSON -> non-nesting format -> JSON through two mlr runs (auto-flatten, then auto-unflatten),
-           on records whose leaves survive the text trip unchanged *)
-Definition run_model (kind : Z) (sep : bytes) (r : jmap) : jmap :=
-  if kind =? 0 then flatten sep r
-  else if kind =? 1 then unflatten sep r
-  else if kind =? 2 then unflatten sep (flatten sep r)
-  else auto_convert sep (B "csv") (B "json") (B "cat") (auto_convert sep (B "json") (B "csv") (B "cat") r).
+           on records whose leaves survive the text trip unchanged
+   kind 4: mlr ... flatten -f FS          kind 5: mlr ... unflatten -f FS (crashed = the run ended with
+           "Internal coding error detected")          kind 6: flatten -f FS then unflatten -f FS *)
+Definition run_model (kind : Z) (sep : bytes) (fs : list bytes) (r : jmap) : option jmap :=
+  if kind =? 0 then Some (flatten sep r)
+  else if kind =? 1 then Some (unflatten sep r)
+  else if kind =? 2 then Some (unflatten sep (flatten sep r))
+  else if kind =? 3 then Some (auto_convert sep (B "csv") (B "json") (B "cat") (auto_convert sep (B "json") (B "csv") (B "cat") r))
+  else if kind =? 4 then Some (flatten_fields fs sep r)
+  else if kind =? 5 then unflatten_fields fs sep r
+  else unflatten_fields fs sep (flatten_fields fs sep r).
 
-Definition chk (c : Z * bytes * jmap * jmap) : bool :=
-  let '(kind, sep, r, obs) := c in jmap_eqb (run_model kind sep r) obs.
+Definition chk (c : Z * bytes * list bytes * jmap * bool * jmap) : bool :=
+  let '(kind, sep, fs, r, crashed, obs) := c in
+  match run_model kind sep fs r with
+  | Some m => negb crashed && jmap_eqb m obs
+  | None => crashed
+  end.
